@@ -28,6 +28,12 @@ pub fn external_actor(name: &str) -> ActorDef {
     ActorDef { name: name.to_string(), is_co: true, body: Box::new(|| {}), external: true, kernel_of: None }
 }
 
+/// an actor slot for a thread that the scenario (or the code under test) spawns itself; it calls
+/// `ctl.enroll_thread(idx)` and holds a `fin_guard` while it runs
+pub fn external_thread_actor(name: &str) -> ActorDef {
+    ActorDef { name: name.to_string(), is_co: false, body: Box::new(|| {}), external: true, kernel_of: None }
+}
+
 /// a runtime thread (e.g. the timer thread) whose points in some category are to be gated: it is
 /// never waited for unless it is at a point
 pub fn passive_actor(name: &str) -> ActorDef {
